@@ -32,6 +32,8 @@ def mutants():
         p = os.path.join(d, "patch.diff")
         if os.path.exists(p):
             meta = json.load(open(os.path.join(d, "meta.json")))
+            if meta.get("neutralised_by"):
+                continue        # (a later fix: commit made this change harmless: its own demonstration passes now; kept for the record)
             out.append({"name": os.path.basename(d), "patch": p, "property": meta.get("property"),
                         "also": meta.get("also_expected", []), "kind": "seeded"})
     for p in sorted(glob.glob(os.path.join(env.VERIF, "selftest", "mutants", "*.patch"))):
